@@ -22,7 +22,7 @@ LEVEL_NOTE = ('Two operators may both be active for the moment between the appea
 RULE = ('random operator sets x random lifetimes x random start/stop/kill schedules; non-trivial = at least one operator was paused by a peer and later resumed, or took over after a '
         'kill; distinct = hash of the per-operator toggle sequences (rounded) and exit kinds')
 ASSUMPTIONS = ['operators share the virtual clock (no clock skew between peers)', 'the peering object exists (mandatory peering)']
-GATES = {'runs': 100, 'operators': 250, 'pause_state_checks': 1500, 'pauses_by_peer': 80, 'resumes': 30, 'takeovers_after_kill': 10, 'takeovers_after_exit': 5, 'active_set_checks': 800,
+GATES = {'queued_events_handled_while_paused': 0, 'runs': 100, 'operators': 250, 'pause_state_checks': 1500, 'pauses_by_peer': 80, 'resumes': 30, 'takeovers_after_kill': 10, 'takeovers_after_exit': 5, 'active_set_checks': 800,
          'renewals': 500, 'withdrawals': 100, 'cleanups': 10, 'paused_silence_checks': 60, 'equal_priority_runs': 10, 'foreign_records': 30}
 
 
@@ -35,6 +35,9 @@ def rnd_desc(rng: random.Random, i: int) -> dict[str, Any]:
         lifetime = rng.choice([3, 4, 5, 8, 12, 20, 60, 60, 86400, 90000])
         ops.append({'name': f'op{k + 1}', 'priority': prios[k], 'lifetime': lifetime})
     handlers = [{'kind': 'create', 'id': 'c1'}, {'kind': 'update', 'id': 'u1'}, {'kind': 'event', 'id': 'ev'}]
+    if rng.random() < 0.3:
+        # slow handlers: a pause may begin while one is running, with further events of the object already queued behind it
+        handlers[1] = {'kind': 'update', 'id': 'u1', 'script': [['slow', rng.choice([0.4, 1.5]), ['ok']] for _ in range(200)]}
     if rng.random() < 0.4:
         handlers.append({'kind': 'daemon', 'id': 'd1', 'persona': {'type': 'obedient'}})
     tl: list[list[Any]] = [[0.0, 'create', 'o0', {'spec': {'x': 0}}], [0.0, 'create', 'o1', {'spec': {'x': 0}}]]
@@ -70,17 +73,40 @@ def rnd_desc(rng: random.Random, i: int) -> dict[str, Any]:
     k = 0
     while te < horizon:
         k += 1
-        tl.append([round(te, 3), 'edit', rng.choice(['o0', 'o1']), {'spec': {'x': k}}])
+        if rng.random() < 0.25:
+            tl.append([round(te, 3), 'edit', rng.choice(['o0', 'o1']), {'status': {'f': k}}])      # no essential change: nothing to handle (again)
+        else:
+            tl.append([round(te, 3), 'edit', rng.choice(['o0', 'o1']), {'spec': {'x': k}}])
         te += rng.choice([0.7, 1.0, 1.3])
     tl.sort(key=lambda x: x[0])
     return {'seed': rng.randrange(1 << 30), 'handlers': handlers, 'timeline': tl, 'quiet': None, 'horizon': horizon + 100.0, 'latency': 0.001, 'peering': {'name': 'default'},
             'settings': {'queueing__idle_timeout': 1.0, 'persistence__consistency_timeout': 0.5}, 'end': 'stop', 'exit_wait': 60.0, 'ops': ops, 't_final': horizon, 'post_yields': rng.choice([0, 0, 0, 1, 2, 3, 5, 8])}
 
 
+def directed() -> list[dict[str, Any]]:
+    """A pause that begins while a slow handler runs and a further event of the object waits behind it: the handler finishes and records it
+    while paused, the echo cannot come (streams are closed); the waiting event must not be handled on its stale view (the handler would run twice)."""
+    out = []
+    for slow in (0.8, 1.5):
+        for t_pause in (5.7, 6.0, 6.3):
+            for ct in (0.3, 0.5, 2.0):
+                for py in (0, 2):
+                    ops = [{'name': 'op1', 'priority': 0, 'lifetime': 60}]
+                    out.append({'name': f'dir-slow{slow}-p{t_pause}-ct{ct}-py{py}', 'desc': {
+                        'seed': 1, 'handlers': [{'kind': 'create', 'id': 'c1'}, {'kind': 'update', 'id': 'u1', 'script': [['slow', slow, ['ok']]] * 20}, {'kind': 'event', 'id': 'ev'}],
+                        'timeline': [[0.0, 'create', 'o0', {'spec': {'x': 0}}], [0.0, 'create', 'o1', {'spec': {'x': 0}}],
+                                     [0.5, 'start', 'op1', {'peering__priority': 0, 'peering__lifetime': 60}],
+                                     [5.0, 'edit', 'o0', {'spec': {'x': 1}}], [5.5, 'edit', 'o0', {'status': {'f': 1}}], [t_pause, 'peer', 'boss', 100, 60], [12.0, 'unpeer', 'boss'],
+                                     [20.0, 'edit', 'o0', {'spec': {'x': 2}}]],
+                        'quiet': None, 'horizon': 140.0, 'latency': 0.001, 'peering': {'name': 'default'},
+                        'settings': {'queueing__idle_timeout': 1.0, 'persistence__consistency_timeout': ct}, 'end': 'stop', 'exit_wait': 60.0, 'ops': ops, 't_final': 40.0, 'post_yields': py}})
+    return out
+
+
 def gen_cases(tier: str, seed: int):
     rng = random.Random(f'C13-{seed}')
     n = 160 if tier == 'quick' else 4000
-    return [{'name': f'rnd{i}', 'desc': rnd_desc(rng, i)} for i in range(n)]
+    return directed() + [{'name': f'rnd{i}', 'desc': rnd_desc(rng, i)} for i in range(n)]
 
 
 def run_case(case: dict[str, Any]) -> dict[str, Any]:
@@ -232,6 +258,13 @@ def run_case(case: dict[str, Any]) -> dict[str, Any]:
                 continue
             cov['paused_silence_checks'] += 1
             late = [c for c in ix.calls if c['inc'] == name and c['kind'] in ('create', 'update', 'daemon', 'timer') and tp + 0.5 < c['t'] < tr - 1e-6]
+            # '... beyond events already queued': a change handler may still start for a version that had been delivered before the pause began
+            # (it was waiting in the object's queue behind a slow handler, or for the consistency of that handler's write)
+            given_before = {(u, str(rv)) for s in w.sim.kube.streams if s.client.name == name and s.plural == 'kopfexamples'
+                            for (t, typ, u, rv) in s.delivered if t <= tp + 1e-9}
+            queued = [c for c in late if c['kind'] in ('create', 'update') and (c['uid'], str(c.get('rv'))) in given_before]
+            cov['queued_events_handled_while_paused'] += len(queued)
+            late = [c for c in late if c not in queued]
             if late:
                 viol.append({'mech': 'handled-while-paused', 'msg': f"{name} is paused during [{tp}, {tr}], yet it started {late[0]['h']} ({late[0]['kind']}) for {late[0]['uid']} at t={late[0]['t']}", 'witness': None})
                 break
